@@ -328,10 +328,21 @@ func (s *session) SetID(newID string) {
 		return
 	}
 	s.socket.SetID(newID)
+	Tracef("session changes id: %s -> %s", oldID, newID)
+	// Only a session that is being prepared or is established belongs to the
+	// hub; one that is closing, closed or between two connections just gets
+	// the new id (a successful redial puts it back under its current id).
+	if !s.checkStatus(statusPreparing, statusOk) {
+		return
+	}
 	hub := s.peer.sessHub
 	hub.set(s)
 	hub.delete(oldID, s)
-	Tracef("session changes id: %s -> %s", oldID, newID)
+	if !s.checkStatus(statusPreparing, statusOk) {
+		// closed in the meantime: its close path may have looked for the
+		// entry before it was there
+		hub.delete(newID, s)
+	}
 }
 
 // ControlFD invokes f on the underlying connection's file
